@@ -190,8 +190,14 @@ func (ex *Exec) call(fn *ssa.Function, args []Value, bind []Value) Value {
 		return nil
 	}
 	th := ex.cur
-	if th.depth > 400 {
-		ex.abort(abUnwind, "call depth > 400 in %s", name)
+	if th.depth > 1500 {
+		if ex.termLimit > 0 && ex.termID != "" {
+			// unbounded recursion inside a termination window: natively a stack overflow
+			_, m := ex.check(nil, true)
+			ex.recordFinding(ex.termID, "nontermination", "call depth > 1500 (unbounded recursion) in "+name, m, "")
+			ex.abort(abPathEnd, "recursion bound hit")
+		}
+		ex.abort(abUnwind, "call depth > 1500 in %s", name)
 	}
 	ex.H.FuncsSeen[name] = true
 	th.depth++
